@@ -81,20 +81,31 @@ def build(ep, cls, rng):
     elif cls == "sparse_storage":
         A = _sp(F)
     m, n = F.shape[:2]
-    opt_bad = cls == "unknown_option"
+    opt_bad = cls.startswith("unknown_option")
+
+    def bad(valid, other):
+        """an out-of-domain value of an enumerated option: another word, a fragment of the valid word, the empty
+        string, the valid word in another case, or a value of the wrong type"""
+        if cls == "unknown_option":
+            return other
+        if isinstance(valid, str):
+            return {"unknown_option_fragment": valid[:len(valid) // 2] if len(valid) >= 4 else valid + valid, "unknown_option_empty": "",
+                    "unknown_option_case": valid.swapcase(), "unknown_option_type": 0}[cls]
+        return {"unknown_option_fragment": valid + 3, "unknown_option_empty": "", "unknown_option_case": str(valid) + "x",
+                "unknown_option_type": "one"}[cls]
     mis = cls == "mismatched_pair"
     simple = {
         "induced_matrix_norm_1": lambda: (lambda: u.induced_matrix_norm_1(A), [A]),
         "induced_matrix_norm_inf": lambda: (lambda: u.induced_matrix_norm_inf(A), [A]),
         "spectral_norm_2": lambda: (lambda: u.spectral_norm_2(A), [A]),
-        "matrix_norm": lambda: (lambda: u.matrix_norm(A, "nuc" if opt_bad else 1), [A]),
+        "matrix_norm": lambda: (lambda: u.matrix_norm(A, bad("fro", "nuc") if opt_bad else 1), [A]),
         "real_expand": lambda: (lambda: u.real_expand(A), [A]),
-        "quaternion_to_complex_adjoint": lambda: (lambda: u.quaternion_to_complex_adjoint(A, axis="y" if opt_bad else "x"), [A]),
+        "quaternion_to_complex_adjoint": lambda: (lambda: u.quaternion_to_complex_adjoint(A, axis=bad("x", "y") if opt_bad else "x"), [A]),
         "ishermitian": lambda: (lambda: u.ishermitian(A), [A]),
-        "det_dieudonne": lambda: (lambda: u.det(A, "Foo" if opt_bad else "Dieudonne"), [A]),
+        "det_dieudonne": lambda: (lambda: u.det(A, bad("Dieudonne", "Foo") if opt_bad else "Dieudonne"), [A]),
         "det_moore": lambda: (lambda: u.det(A, "Moore"), [A]),
         "power_iteration": lambda: (lambda: u.power_iteration(A, max_iterations=5), [A]),
-        "quat_null_space": lambda: (lambda: u.quat_null_space(A, side="up" if opt_bad else "left"), [A]),
+        "quat_null_space": lambda: (lambda: u.quat_null_space(A, side=bad("left", "up") if opt_bad else "left"), [A]),
         "quaternion_lu": lambda: (lambda: L.LU.quaternion_lu(A, return_p=True), [A]),
         "tridiagonalize": lambda: (lambda: L.tridiag.tridiagonalize(A), [A]),
         "quaternion_eigendecomposition": lambda: (lambda: L.eigen.quaternion_eigendecomposition(A), [A]),
@@ -140,7 +151,7 @@ def build(ep, cls, rng):
         return (lambda: getattr(L.LU, ep)(A)), [A]
     if ep == "normQsparse":
         planes = [np.ascontiguousarray(F[..., c]).copy() for c in range(4)]
-        return (lambda: u.normQsparse(*planes, "nuc-like" if opt_bad else None)), planes
+        return (lambda: u.normQsparse(*planes, bad("d", "nuc-like") if opt_bad else None)), planes
     if ep.startswith("tensor_unfold"):
         mode = {"tensor_unfold": 1, "tensor_unfold_mode0": 0, "tensor_unfold_mode2": 2}[ep]
         if cls == "not_order3":
@@ -149,7 +160,7 @@ def build(ep, cls, rng):
             T3 = np.ones((2, 3, 2))
         else:
             T3 = quaternion.as_quat_array(rng.standard_normal((m, n, 2, 4)))
-        return (lambda: t.tensor_unfold(T3, (3 if mode else -1) if opt_bad else mode)), [T3]
+        return (lambda: t.tensor_unfold(T3, bad(mode, 3 if mode else -1) if opt_bad else mode)), [T3]
     if ep.startswith("tensor_fold"):
         mode = {"tensor_fold": 1, "tensor_fold_mode0": 0, "tensor_fold_mode2": 2}[ep]
         shape = (m + 1, n + 1, n + 3)    # distinct dims so that a wrong 2-D shape with the right count exists
@@ -158,13 +169,13 @@ def build(ep, cls, rng):
         if mis:
             other = t.tensor_unfold(T3, (mode + 1) % 3)
             M = other if M.shape != other.shape else M.T.copy()   # same element count, wrong shape
-        return (lambda: t.tensor_fold(M, 7 if opt_bad else mode, shape)), [M]
+        return (lambda: t.tensor_fold(M, bad(mode, 7) if opt_bad else mode, shape)), [M]
     img = rng.random((max(m, 2), max(n, 2), 4))
     psf = np.array([[0.25, 0.5, 0.25]]) if img.shape[1] >= 3 else np.array([[1.0]])
     if ep == "apply_blur_fft":
-        return (lambda: q.apply_blur_fft(img, psf, boundary="reflect" if opt_bad else "periodic")), [img, psf]
+        return (lambda: q.apply_blur_fft(img, psf, boundary=bad("periodic", "reflect") if opt_bad else "periodic")), [img, psf]
     if ep == "qslst_restore_fft":
-        return (lambda: q.qslst_restore_fft(img, psf, 0.1, boundary="zero" if opt_bad else "periodic")), [img, psf]
+        return (lambda: q.qslst_restore_fft(img, psf, 0.1, boundary=bad("periodic", "zero") if opt_bad else "periodic")), [img, psf]
     if ep == "qslst_restore_matrix":
         N = img.shape[0] * img.shape[1]
         Am = np.eye(N + 1 if mis else N)
